@@ -21,12 +21,20 @@ def run(ctx):
                         "bits equal to the value and getFlag returns the OR of exactly the masked bits; read-back agrees")
     res.assumptions += ["arguments are within the field's range (bits above the field width are zero)",
                         "x86-64 little-endian target as compiled; accessor names are those of the public API"]
-    res.not_decided += ["variable-length data parts (C13)"]
+    res.rule("C11-R4", "variable-length parts (data bytes, stream ids, vendor data, strings) written through setData read back from any prior state: the "
+                        "builders write every byte they advance over — length words, content, terminators and pad bytes — on every path, so nothing "
+                        "of the object's previous content survives inside the new one (C13-R3)")
+    res.not_decided += ["value equality of the variable-length parts beyond 'every byte of the new content is written' (C13)"]
     obs, stats = accessors.analyse(fb, ctx.spec("layout.json"))
     for o in obs:
         if o.tag in TAGS:
             res.check(o.ok, TAGS[o.tag], o.key, o.loc, o.detail)
     res.extra["accessor_stats"] = stats
+    from rules import c13
+    for o in c13.run(ctx).obligations:
+        if o["rule"] == "C13-R3":
+            res.check(o["ok"], "C11-R4", "builders:" + o["key"], o["loc"], o["detail"], o["detail"])
+    res.floor("C11-R4", 8)
     res.floor("C11-R1", 150)
     res.floor("C11-R2", 150)
     res.floor("C11-R3", 200)
